@@ -239,7 +239,7 @@ def st_shared_history(draw):
     return {"shared_history": steps, "n_bare": n_bare}
 
 
-def check_shared_history(ctx, case):
+def _check_shared_history(ctx, case):
     import icontract
 
     T, LOG = {}, []
@@ -385,6 +385,18 @@ def check_shared_history(ctx, case):
                              "%r (evaluated %r)\nhistory: %r" % (label, name, falsy, old[falsy][0], old[falsy][1], o, log, steps))
                     return feats
     return feats
+
+
+def check_shared_history(ctx, case):
+    """Every step of such a history is legitimate use: a step the library rejects is reported, not a harness error."""
+    try:
+        return _check_shared_history(ctx, case)
+    except core.HarnessError:
+        raise
+    except Exception as e:  # noqa
+        ctx.fail("shared|step-rejected|%s" % type(e).__name__, case, "a decoration / class definition of the history was "
+                 "rejected by the library: %s: %s\nhistory: %r" % (type(e).__name__, str(e)[:400], case["shared_history"]))
+        return {"step-rejected"}
 
 
 def run(ctx, tier, seed, shard, nshards):
